@@ -33,6 +33,9 @@ struct ItemReq {
     /// keep doc comments? default false (they are dropped: they are not code)
     #[serde(default)]
     keep_docs: bool,
+    /// for trusted items: token hash of the body the trusted contract was validated against
+    #[serde(default)]
+    expect_body: Option<String>,
 }
 
 #[derive(Deserialize, Clone)]
@@ -76,6 +79,8 @@ struct ItemResp {
     self_reads: Vec<String>,
     /// methods called directly on `self`
     self_calls: Vec<String>,
+    /// FNV-64 of the function body's token stream (insensitive to comments and whitespace)
+    body_tokens_fnv: String,
 }
 
 #[derive(Serialize, Default, Clone)]
@@ -1072,16 +1077,28 @@ fn process(src: &str, file: &syn::File, req: &ItemReq) -> Result<ItemResp, Lost>
         }
     }
     let mut frame = Frame::default();
-    match &found {
-        Found::ImplFn(_, f) => frame.visit_block(&f.block),
-        Found::TraitFn(_, f) => {
-            if let Some(b) = &f.default {
-                frame.visit_block(b)
+    let mut body_tokens = String::new();
+    {
+        use quote::ToTokens;
+        match &found {
+            Found::ImplFn(_, f) => {
+                frame.visit_block(&f.block);
+                body_tokens = f.block.to_token_stream().to_string();
             }
+            Found::TraitFn(_, f) => {
+                if let Some(b) = &f.default {
+                    frame.visit_block(b);
+                    body_tokens = b.to_token_stream().to_string();
+                }
+            }
+            Found::Item(syn::Item::Fn(f)) => {
+                frame.visit_block(&f.block);
+                body_tokens = f.block.to_token_stream().to_string();
+            }
+            _ => {}
         }
-        Found::Item(syn::Item::Fn(f)) => frame.visit_block(&f.block),
-        _ => {}
     }
+    let body_tokens_fnv = fnv(&body_tokens);
     if let Some(exp) = &req.expect_sig {
         if norm_ws(exp) != signature {
             return lost(format!(
@@ -1107,6 +1124,7 @@ fn process(src: &str, file: &syn::File, req: &ItemReq) -> Result<ItemResp, Lost>
             self_writes: frame.writes.into_iter().collect(),
             self_reads: frame.reads.into_iter().collect(),
             self_calls: frame.calls.into_iter().collect(),
+            body_tokens_fnv,
         });
     }
     let (text, linemap, linelabel) = apply(src, start, end, &edits)?;
@@ -1125,6 +1143,7 @@ fn process(src: &str, file: &syn::File, req: &ItemReq) -> Result<ItemResp, Lost>
         self_writes: frame.writes.into_iter().collect(),
         self_reads: frame.reads.into_iter().collect(),
         self_calls: frame.calls.into_iter().collect(),
+        body_tokens_fnv,
     })
 }
 
